@@ -383,9 +383,10 @@ fn a_iph6_lax(c: &Ctx, b: &[u8], _: u16) -> Res {
 }
 
 fn sweep_res(c: &Ctx, which: &str, b: &[u8]) -> Res {
-    let (digest, n) = crate::sweep::sweep(c, which, b);
+    let (digest, n, mism) = crate::sweep::sweep(c, which, b);
     let mut r = Res::new();
     r.layers.push(json!({"k": "sweep", "off": 0, "hlen": n, "f": [digest], "p": no_pay()}));
+    r.conv["mism"] = json!(mism);
     r
 }
 fn a_sweep_link(c: &Ctx, b: &[u8], _: u16) -> Res {
